@@ -25,6 +25,7 @@ type JobCfg struct {
 	StrMaxLen  int      `json:"strmaxlen,omitempty"`
 	TimeoutS   int      `json:"timeout_s,omitempty"`
 	ReplayRace bool     `json:"replay_race,omitempty"`
+	StrOrder   string   `json:"strorder,omitempty"`
 }
 
 type JobDef struct {
@@ -91,6 +92,7 @@ func cfgFor(def *JobDef, solver string) *Config {
 		}
 	}
 	c.Concurrent = jc.Conc
+	c.StrOrder = jc.StrOrder
 	if jc.Preempt > 0 {
 		c.Preempt = jc.Preempt
 	}
